@@ -14,6 +14,7 @@ import XotModel.Lemmas.FcloneLocal5
 import XotModel.Lemmas.FlocalAll3
 import XotModel.Lemmas.FclonePrefix8
 import XotModel.Lemmas.FcloneRoundTrip
+import XotModel.Lemmas.FcloneRepr2
 import XotModel.Model.FcloneModel
 import XotModel.Generated
 
@@ -320,6 +321,55 @@ theorem C12_clone_roundtrip_strict (env : Env) (f : Forest) (inv : f.Inv) (hoff 
   rw [this] at h9
   exact h9
 
+/-- **C12_clone_roundtrip with the hypothesis on the SOURCE** instead of the clone: if the tables
+    hold the built-in values (`envOK`), every node of the root tree containing the source is `nodeOK`
+    (Model/SerTokens.lean: structure, no adjacent text, well-formed names and character data,
+    declarations XML can express) and no `xml:id` value is repeated inside the source, then the clone
+    — the copy of the source plus one namespace node per inherited prefix — lies in the round-trip
+    domain (`cloneWithPrefixes_representable`: every added declaration is a declaration of an ancestor,
+    no prefix is declared twice), so: `to_string(clone)` succeeds, the text parses, the parsed tree is
+    the document holding exactly the clone, tables unchanged, and it is `deep_equal` to the document
+    holding the source subtree itself. -/
+theorem C12_clone_roundtrip_source (env : Env) (f : Forest) (inv : f.Inv)
+    (node : Nat) (src : HTree) (rest : List HTree) (hpath : f.pathTo node = src :: rest)
+    (hel : src.value.isElement = true)
+    (hroot : ∀ r ∈ f.roots, HTree.pathTo node r = some (src :: rest) → f.serialises env r.handle = true)
+    (order : List (Nat × Nat)) (hord : ∀ b, b ∈ order ↔ b ∈ f.inheritedPrefixes env node)
+    (hfun : ∀ a ∈ order, ∀ b ∈ order, a.1 = b.1 → a = b)
+    (henv : envOK env = true)
+    (hok : ∀ r ∈ f.roots, HTree.pathTo node r = some (src :: rest) → r.erase.allNodes (nodeOK env) = true)
+    (hids : (xmlIdValues env src.erase).Nodup) :
+    ∃ c C s p, (f.cloneWithPrefixes node order).2 = some c ∧
+      (f.cloneWithPrefixes node order).1.get? c = some C ∧
+      (f.cloneWithPrefixes node order).1.isRoot c = true ∧ C.value.isElement = true ∧
+      Representable env (.node .document [C.erase]) = true ∧
+      serializeString env {} C.erase [] = .ok s ∧ parseString .document env s = .ok p ∧
+      p.tree = .node .document [C.erase] ∧ p.env = env ∧
+      deepEqual p.tree (.node .document [src.erase]) = true := by
+  have hrep : ∀ c C, (f.cloneWithPrefixes node order).2 = some c →
+      (f.cloneWithPrefixes node order).1.get? c = some C →
+      Representable env (.node .document [C.erase]) = true ∧
+        expectedClone f.consolidation src.erase = src.erase := by
+    cases src with
+    | node hs v Ks =>
+      cases v with
+      | element name =>
+        exact cloneWithPrefixes_representable env f inv node hs name Ks rest hpath order
+          (fun b hb => (hord b).mp hb) henv hok hids
+      | document => simp [HTree.value, Value.isElement] at hel
+      | text s => simp [HTree.value, Value.isElement] at hel
+      | pi t d => simp [HTree.value, Value.isElement] at hel
+      | comment s => simp [HTree.value, Value.isElement] at hel
+      | «attribute» a s => simp [HTree.value, Value.isElement] at hel
+      | «namespace» a s => simp [HTree.value, Value.isElement] at hel
+  obtain ⟨c, C, s, p, h1, h2, h3, h4, h5, h6, h7, h8, h9⟩ :=
+    C12_clone_roundtrip env f inv node src rest hpath hel hroot order hord hfun
+      (fun c C hc hC => (hrep c C hc hC).1)
+  have hfix := (hrep c C h1 h2).2
+  unfold expectedClone at hfix
+  rw [hfix] at h9
+  exact ⟨c, C, s, p, h1, h2, h3, h4, (hrep c C h1 h2).1, h5, h6, h7, h8, h9⟩
+
 /-- Non-vacuity, closed: tables with the built-in values in which name 6 lies in namespace 2,
     declared with prefix 2 on the ancestor of the source (element 3 of `exForest`); the clone with the
     inherited declaration is `<p:a xmlns:p="u" b="v">x</p:a>`, and every hypothesis of
@@ -370,6 +420,41 @@ example : ∃ c C s p, (exForest.cloneWithPrefixes 3 [(2, 2)]).2 = some c ∧
       cases h1
       rw [h2] at hc2
       simpa using hc2)
+
+/-- The same from the hypotheses on the source (`C12_clone_roundtrip_source`), closed. -/
+example : ∃ c C s p, (exForest.cloneWithPrefixes 3 [(2, 2)]).2 = some c ∧
+    (exForest.cloneWithPrefixes 3 [(2, 2)]).1.get? c = some C ∧
+    (exForest.cloneWithPrefixes 3 [(2, 2)]).1.isRoot c = true ∧ C.value.isElement = true ∧
+    Representable exEnvR (.node .document [C.erase]) = true ∧
+    serializeString exEnvR {} C.erase [] = .ok s ∧ parseString .document exEnvR s = .ok p ∧
+    p.tree = .node .document [C.erase] ∧ p.env = exEnvR ∧
+    deepEqual p.tree (.node .document [.node (.element 6)
+      [.node (.attribute 3 ['v']) [], .node (.text ['x']) []]]) = true := by
+  have hp : exForest.pathTo 3 =
+      [.node 3 (.element 6) [.node 4 (.attribute 3 ['v']) [], .node 5 (.text ['x']) []],
+       .node 1 (.element 2) [.node 2 (.namespace 2 2) [],
+         .node 3 (.element 6) [.node 4 (.attribute 3 ['v']) [], .node 5 (.text ['x']) []]],
+       .node 0 .document [.node 1 (.element 2) [.node 2 (.namespace 2 2) [],
+         .node 3 (.element 6) [.node 4 (.attribute 3 ['v']) [], .node 5 (.text ['x']) []]]]] := by
+    rfl
+  have hr : ∀ r ∈ exForest.roots, r = .node 0 .document [.node 1 (.element 2) [.node 2 (.namespace 2 2) [],
+      .node 3 (.element 6) [.node 4 (.attribute 3 ['v']) [], .node 5 (.text ['x']) []]]] := by
+    intro r hr
+    simpa [exForest] using hr
+  exact C12_clone_roundtrip_source exEnvR exForest ((Forest.inv_iff _).mp (by decide)) 3 _ _ hp rfl
+    (fun r h _ => by rw [hr r h]; decide +kernel)
+    [(2, 2)]
+    (by rw [show exForest.inheritedPrefixes exEnvR 3 = [(2, 2)] from by decide +kernel]; intro b; exact Iff.rfl)
+    (by decide) (by decide)
+    (fun r h _ => by rw [hr r h]; decide +kernel)
+    (by decide)
+
+/-- … and the hypotheses on the source of `C12_clone_roundtrip_source` hold for it as well. -/
+example : envOK exEnvR = true ∧
+    (Tree.node .document [.node (.element 2) [.node (.namespace 2 2) [],
+      .node (.element 6) [.node (.attribute 3 ['v']) [], .node (.text ['x']) []]]]).allNodes (nodeOK exEnvR) = true ∧
+    (xmlIdValues exEnvR (.node (.element 6) [.node (.attribute 3 ['v']) [], .node (.text ['x']) []])).Nodup := by
+  decide
 
 /-! ### Locality for EVERY call
 
